@@ -3,6 +3,7 @@ mod util;
 mod paging;
 mod z80rec;
 mod timing;
+mod tape;
 
 fn main() {
     let mut it = std::env::args().skip(1);
@@ -15,6 +16,7 @@ fn main() {
         "paging" => paging::run(&args),
         "z80" => z80rec::run(&args),
         "timing" => timing::run(&args),
+        "tape" => tape::run(&args),
         _ => {
             eprintln!("unknown sub-command {cmd:?}");
             std::process::exit(2);
